@@ -130,9 +130,10 @@ class KexDH:  # pragma: nocover
         self.__hostkey_type = hostkey_type.decode('ascii')
         self.out.d("Parsing host key type: %s" % self.__hostkey_type)
 
-        # If this is an RSA certificate, skip over the nonce.
-        if self.__hostkey_type.startswith('ssh-rsa-cert-v0'):
-            self.out.d("RSA certificate found, so skipping nonce.")
+        # If this is an RSA or ECDSA certificate, skip over the nonce.  (For ED25519 certificates, the nonce is read as the exponent below and the public key as the modulus.)
+        is_ecdsa = self.__hostkey_type.startswith('ecdsa-sha2-nistp')
+        if self.__hostkey_type.startswith('ssh-rsa-cert-v0') or (is_ecdsa and '-cert-v0' in self.__hostkey_type):
+            self.out.d("RSA or ECDSA certificate found, so skipping nonce.")
             _, _, ptr = KexDH.__get_bytes(hostkey, ptr)  # Read & skip over the nonce.
 
         # The public key exponent.
@@ -151,8 +152,12 @@ class KexDH:  # pragma: nocover
             hostkey_n, self.__hostkey_n_len, ptr = KexDH.__get_bytes(hostkey, ptr)
             self.__hostkey_n = int(binascii.hexlify(hostkey_n), 16)  # pylint: disable=unused-private-member
 
+            # For ECDSA keys, the fields read above are the curve name and the public point.  An uncompressed point is 0x04 followed by the X and Y values; the key size is the size of one of them.
+            if is_ecdsa and self.__hostkey_n_len > 0 and hostkey_n[0] == 4:
+                self.__hostkey_n_len = int((self.__hostkey_n_len - 1) / 2)
+
         # If this is a certificate, continue parsing to extract the CA type and key length.  Even though a hostkey type might be 'ssh-ed25519-cert-v01@openssh.com', its CA may still be RSA.
-        if self.__hostkey_type.startswith('ssh-rsa-cert-v0') or self.__hostkey_type.startswith('ssh-ed25519-cert-v0'):
+        if self.__hostkey_type.startswith('ssh-rsa-cert-v0') or self.__hostkey_type.startswith('ssh-ed25519-cert-v0') or (is_ecdsa and '-cert-v0' in self.__hostkey_type):
             # Get the CA key type and key length.
             self.__ca_key_type, self.__ca_n_len = self.__parse_ca_key(hostkey, self.__hostkey_type, ptr)
             self.out.d("KexDH.__parse_ca_key(): CA key type: [%s]; CA key length: %u" % (self.__ca_key_type, self.__ca_n_len))
